@@ -17,6 +17,9 @@
  *   walk T v                 foreach (K in t) { set(t, K, v); }        walkself T    foreach (K in t) { set(t, K, get(t, K)); }
  *   assignmap T <kind> [k v]...   assign(t, obj) with obj a map that is NOT a Tree (PMap below: pairs iterated in this order)
  *   newodd T <kind> a b ... (odd count)   new(Tree, K, V, a, b, ...) with an odd number of arguments: FormatError, no tree
+ *   cmp T S                  cmp(t, s) for two Trees of the same kind (Tree_Cmp: lock-step walk, values fetched by Tree_Get / get)
+ *   hash T                   hash(t) (Tree_Hash: xor of hash(key) ^ hash(value) along the walk)
+ *   links T                  the link table: per node in preorder `key<parentkey:colour`, decoded from the raw parent word
  *
  * O lines (reproduced verbatim by lean/Driver/Tree.lean from the model):
  *   O <op> <outcome> n=<nitems> ok=<0|1> h=<height> sz=<ksize>/<vsize> t=<preorder "(Ck:v left right)", "." = NULL | #hash when n>40>
@@ -37,6 +40,10 @@
  *   tree-parent   parent(child) != node, or parent(root) != NULL
  *   tree-count    number of nodes != nitems
  *   tree-height   height > 2*log2(n+1)
+ *   tree-cmp      cmp(t, s) is not the comparison of the two reference maps binding by binding in iteration order (keys by the
+ *                 harness's own comparison, values by integer compare / strcmp / memcmp), or it raised
+ *   tree-hash     hash(t) is not the xor over the reference map of the element hashes (Int: the value, String: hash_data of the
+ *                 characters, structs: hash_data of the bytes), or it raised
  */
 #include "common.h"
 #include <signal.h>
@@ -96,7 +103,8 @@ static size_t st_ops = 0, st_set_new = 0, st_set_upd = 0, st_rem = 0, st_rem2 = 
   st_keyerr = 0, st_maxn = 0, st_maxh = 0, st_checks = 0, st_iters = 0, st_rem2_wide = 0,
   st_assign_empty = 0, st_assign_one = 0, st_assign_retype = 0,
   st_own_key = 0, st_own_val = 0, st_self_key_assign = 0, st_self_val_assign = 0, st_self_string_assign = 0, st_walk = 0,
-  st_assign_map = 0, st_new_odd = 0;
+  st_assign_map = 0, st_new_odd = 0,
+  st_cmp = 0, st_cmp_eq = 0, st_cmp_key = 0, st_cmp_val = 0, st_cmp_prefix = 0, st_cmp_self = 0, st_hash = 0, st_hash_empty = 0, st_links = 0;
 
 /* ------------------------------------------------------------------------------------------------ reference map */
 static int ref_cmp(const RefMap* r, const Ent* a, const KeyV* k) {
@@ -215,6 +223,29 @@ static void preorder(struct Tree* m, var node, const RefMap* r, int depth) {
   dput_entry(m, node, r); dput(" ");
   preorder(m, *Tree_Left(m, node), r, depth + 1); dput(" ");
   preorder(m, *Tree_Right(m, node), r, depth + 1); dput(")");
+}
+
+/* the link table: per node in preorder `key<parentkey|-:R|B`, decoded from the RAW parent-and-colour word (third word of the
+   node) by this file — low bit = colour, the rest = parent — not through the library's accessors; at most `limit` nodes */
+static size_t links_count, links_bad;
+static void dput_key(struct Tree* m, var node, const RefMap* r) {
+  long w[3];
+  if (r->kk == KS) dput(c_str(Tree_Key(m, node))); else { node_keywords(m, node, r->kk, w); dput_words(w, kwords(r->kk)); }
+}
+static void links_pre(struct Tree* m, var node, var from, const RefMap* r, int depth, size_t limit) {
+  if (node == NULL || depth > 200) return;
+  uintptr_t raw = ((uintptr_t*)node)[2];
+  var par = (var)(raw & ~(uintptr_t)1);
+  if (par != from) links_bad++;
+  if (links_count < limit) {
+    if (links_count) dput(" ");
+    dput_key(m, node, r); dput("<");
+    if (par) dput_key(m, par, r); else dput("-");
+    dput((raw & 1) ? ":R" : ":B");
+  }
+  links_count++;
+  links_pre(m, *Tree_Left(m, node), node, r, depth + 1, limit);
+  links_pre(m, *Tree_Right(m, node), node, r, depth + 1, limit);
 }
 
 /* ------------------------------------------------------------------------------------------------ red-black checker */
@@ -771,6 +802,61 @@ int main(int argc, char** argv) {
       del(trees[T]); trees[T] = NULL; ref_clear(&refs[T]);
       O("del ok"); st_ops++;
     }
+    else if (!strcmp(op, "cmp") && ntok == 3) {
+      NEED_TREE(1); if (!parse_nat(toks[2], &S) || S >= MAXT || !trees[S]) BAD;
+      if (refs[T].kk != refs[S].kk || refs[T].vw != refs[S].vw) BAD;     /* cmp of an Int with a String raises in the element type */
+      int c = 0; var exc; V_TRY(exc, c = cmp(trees[T], trees[S]));
+      c = c < 0 ? -1 : c > 0 ? 1 : 0;
+      /* reference: iteration order = descending keys = the reference arrays from the back */
+      int want = 0, how = 0; { const RefMap* a = &refs[T]; const RefMap* b = &refs[S]; size_t i = a->n, j = b->n;
+        for (;;) {
+          if (i == 0 && j == 0) { want = 0; how = 0; break; }
+          if (i == 0) { want = -1; how = 3; break; }
+          if (j == 0) { want = 1; how = 3; break; }
+          const Ent* x = a->e[i-1]; const Ent* y = b->e[j-1]; int d = 0;
+          if (a->kk == KS) { d = strcmp(x->s, y->s); }
+          else for (int w = 0; w < kwords(a->kk) && !d; w++) if (x->k[w] != y->k[w]) d = x->k[w] < y->k[w] ? -1 : 1;
+          if (d) { want = d < 0 ? -1 : 1; how = 1; break; }
+          if (a->vw == 0) d = strcmp(x->sv, y->sv);
+          else if (a->vw == 1) d = x->v[0] < y->v[0] ? -1 : x->v[0] > y->v[0] ? 1 : 0;
+          else d = memcmp(x->v, y->v, vbytes(a->vw));
+          if (d) { want = d < 0 ? -1 : 1; how = 2; break; }
+          i--; j--;
+        } }
+      st_cmp++; if (T == S) st_cmp_self++;
+      if (how == 0) st_cmp_eq++; else if (how == 1) st_cmp_key++; else if (how == 2) st_cmp_val++; else st_cmp_prefix++;
+      if (exc) { X("sig=tree-cmp line=%zu what=cmp raised %s", lineno, v_exc_name(exc)); O("cmp %s", v_exc_name(exc)); }
+      else {
+        if (c != want) X("sig=tree-cmp line=%zu what=cmp returned %d, the reference maps compare %d", lineno, c, want);
+        O("cmp %d", c);
+      }
+      st_ops++;
+    }
+    else if (!strcmp(op, "hash") && ntok == 2) {
+      NEED_TREE(1);
+      uint64_t h = 0; var exc; V_TRY(exc, h = hash(trees[T]));
+      uint64_t want = 0; { const RefMap* a = &refs[T];
+        for (size_t i = 0; i < a->n; i++) { const Ent* x = a->e[i];
+          want ^= a->kk == KI ? (uint64_t)x->k[0] : a->kk == KS ? hash_data(x->s, strlen(x->s)) : hash_data(x->k, 24);
+          want ^= a->vw == 1 ? (uint64_t)x->v[0] : a->vw == 0 ? hash_data(x->sv, strlen(x->sv)) : hash_data(x->v, vbytes(a->vw)); } }
+      st_hash++; if (refs[T].n == 0) st_hash_empty++;
+      if (exc) { X("sig=tree-hash line=%zu what=hash raised %s", lineno, v_exc_name(exc)); O("hash %s", v_exc_name(exc)); }
+      else {
+        if (h != want) X("sig=tree-hash line=%zu what=hash %016llx, xor over the reference map %016llx", lineno,
+                         (unsigned long long)h, (unsigned long long)want);
+        O("hash %016llx", (unsigned long long)h);
+      }
+      st_ops++;
+    }
+    else if (!strcmp(op, "links") && ntok == 2) {
+      NEED_TREE(1);
+      struct Tree* m = trees[T];
+      dlen = 0; dput(""); links_count = 0; links_bad = 0;
+      links_pre(m, m->root, NULL, &refs[T], 0, BIG);
+      if (links_bad) X("sig=tree-parent line=%zu what=%zu raw parent word(s) do not decode to the node that points to them", lineno, links_bad);
+      st_links++;
+      O("links n=%zu %s", links_count, dbuf);
+    }
     else if (!strcmp(op, "check") && ntok == 2) {
       NEED_TREE(1);
       dump_state(dump, sizeof dump, trees[T], &refs[T], 1);
@@ -786,6 +872,8 @@ int main(int argc, char** argv) {
     st_assign_empty, st_assign_one, st_assign_retype);
   I("own_key_args=%zu own_value_args=%zu key_assigned_from_itself=%zu value_assigned_from_itself=%zu string_assigned_from_itself=%zu walks=%zu assign_from_foreign_map=%zu new_odd_count=%zu",
     st_own_key, st_own_val, st_self_key_assign, st_self_val_assign, st_self_string_assign, st_walk, st_assign_map, st_new_odd);
+  I("cmp_ops=%zu cmp_equal=%zu cmp_key_decides=%zu cmp_value_decides=%zu cmp_prefix_decides=%zu cmp_with_itself=%zu hash_ops=%zu hash_of_empty=%zu link_tables=%zu",
+    st_cmp, st_cmp_eq, st_cmp_key, st_cmp_val, st_cmp_prefix, st_cmp_self, st_hash, st_hash_empty, st_links);
   for (int i = 0; i < MAXT; i++) if (trees[i]) { del(trees[i]); trees[i] = NULL; }
   return 0;
 }
